@@ -81,6 +81,21 @@ PROPS = {
                      "(multiset), GetAcceptTrans, operator[] for every used state and two others (with empty()), GetUsedStates, "
                      "AreTransitionsEmpty are compared with the abstract rule / final sets; non-trivial = at least one mutation",
                 assumptions=PROOF_ASSUME),
+    "C17": dict(level="proof", kinds=[("mth", 1)], n=dict(quick=2500, thorough=50000, search=3000),
+                rule="histories (5–15 steps) of construct (cubes with don't-care positions), leaf, copy, assign, self-assign, "
+                     "unary / binary / ternary apply with several leaf operations, in-place apply, Project, Rename, ExtendWith, "
+                     "GetMtbddForPrefix, GetPaths, GetValue with don't-cares, destroy, inside one process-wide node store; after "
+                     "EVERY step EVERY live diagram is read on all 64 total assignments of 6 variables and the operator== matrix "
+                     "of all live handles is compared with equality of the model's canonical values; non-trivial = at least "
+                     "one apply in the history",
+                assumptions=PROOF_ASSUME + ["pointer equality of the C++ is structural equality of the model's reduced ordered diagrams (canonicity theorem); the unique-table discipline that justifies this is C18's subject"]),
+    "C18": dict(level="proof", kinds=[("mthrc", 1)], n=dict(quick=2500, thorough=50000, search=3000),
+                rule="the same histories as C17 without Project, different seeds; after EVERY step the sizes of the two unique tables (read "
+                     "through the guarded hooks) must equal the numbers of distinct leaves / internal nodes reachable from the "
+                     "live handles of the model (no leak, no premature release), values of all live diagrams must be unchanged "
+                     "by operations on other handles, and after destroying every handle both tables are back to their initial "
+                     "sizes; ASan reports use-after-free / double free; non-trivial = at least one apply in the history",
+                assumptions=PROOF_ASSUME),
     "C14": dict(level="proof", kinds=[("rename", 1)], n=dict(quick=3000, thorough=60000, search=4000),
                 rule="ReindexStates (functor / functor without final states / into an existing destination / weak translator / "
                      "fresh translator), CollapseStates, TranslateSymbols with injective, merging, identity and sparse maps, "
@@ -95,7 +110,7 @@ PROPS = {
 
 def generate(prop, n, seed, tier):
     cfg = PROPS[prop]
-    return gen.generate(cfg["kinds"], n, seed * 1000003 + sum(map(ord, prop)))
+    return gen.generate(cfg["kinds"], n, seed * 1000003 + sum(map(ord, prop)) * 7919)
 
 
 def corpus_cases(prop):
@@ -128,6 +143,8 @@ def nontrivial(prop, r):
         return "emptyA=0 emptyC=0" in v
     if prop == "C14":
         return "inj=0" in v
+    if prop in ("C17", "C18"):
+        return "applies=0" not in v
     if prop == "C11":
         return ("shared=1" in v and "mut=0" not in v) or c.startswith("nfah")
     if prop == "C12":
